@@ -7,7 +7,7 @@ int main(int argc, char** argv)
 {
     return cs::Main(argc, argv, "C09", {}, [](cs::Sim& s) {
         cs::Plan p;
-        s.kinds = {"spend1", "chain2", "merge2", "spendlast", "opret", "empty"};
+        s.kinds = {"spend1", "chain2", "merge2", "spendlast", "opret_mid", "opret", "empty"};
         s.parents = {"t0", "t1", "t2"};
         s.ev_flush = s.ev_invalidate = s.ev_reconsider = true;
         p.depth = vx::thorough() ? 5 : 3;
